@@ -1,6 +1,7 @@
 // C12: the line protocol parser is total and accepts exactly well-formed lines.
 // Bounded-exhaustive: every byte string up to a length bound over an 11-byte alphabet, every single (thorough: double)
-// byte mutation of valid templates, every short sequence of known-status lines, and limit cases.
+// byte mutation of valid templates, every short sequence of known-status lines, limit cases, and a timestamp × precision
+// family judged against the exact (math/big) nanosecond value.
 package c12
 
 import (
@@ -9,6 +10,7 @@ import (
 	"encoding/json"
 	"fmt"
 	"io"
+	"math/big"
 	"regexp"
 	"runtime/debug"
 	"sort"
@@ -507,6 +509,10 @@ func sigOf(cs Case, f finding) string {
 	if strings.HasPrefix(f.Clause, "point/") || strings.HasPrefix(f.Clause, "http/") {
 		return f.Clause
 	}
+	if cs.Fam == "timestamps" && strings.HasPrefix(f.Clause, "expect/") {
+		// class = violated clause + where the exact nanosecond value lies + precision
+		return vlib.JoinSig("timestamps", strings.TrimPrefix(f.Clause, "expect/"), tsFeature(cs))
+	}
 	return vlib.JoinSig(f.Clause, inputFeature(cs.In))
 }
 
@@ -538,7 +544,11 @@ func (e *explorer) do(cs Case) {
 	if len(whole.pts) > 2 {
 		np = ">2"
 	}
-	e.outc[fmt.Sprintf("%s: points=%s %s", strings.TrimSuffix(cs.Fam, "2"), np, reason(whole.err))]++
+	label := strings.TrimSuffix(cs.Fam, "2")
+	if cs.Fam == "timestamps" {
+		label += "[" + tsFeature(cs) + "]"
+	}
+	e.outc[fmt.Sprintf("%s: points=%s %s", label, np, reason(whole.err))]++
 	for _, f := range fs {
 		cs.Text = q(cs.In)
 		e.c.Violation(sigOf(cs, f), f.Clause+": input "+cs.Text+": "+f.Detail, cs)
@@ -642,6 +652,139 @@ func longKeyCases() []Case {
 	return out
 }
 
+// ---------------------------------------------------------------------------------------------
+// family "timestamps": "a representable timestamp". The timestamp of a line is an int64 count of precision units;
+// its exact nanosecond value (computed here with math/big, never with the code under test) is units × multiplier.
+// The line is well-formed iff that value lies in [MinNanoTime, MaxNanoTime]; then the point carries exactly it.
+
+func precMult(prec string) int64 {
+	switch prec {
+	case "us":
+		return 1e3
+	case "ms":
+		return 1e6
+	case "s":
+		return 1e9
+	}
+	return 1
+}
+
+// tsCandidates: the int64 unit counts enumerated for one multiplier, ordered by magnitude (then negative first).
+func tsCandidates(mult int64) []int64 {
+	set := map[int64]bool{}
+	addBig := func(x *big.Int) {
+		if x.IsInt64() {
+			set[x.Int64()] = true
+		}
+		if n := new(big.Int).Neg(x); n.IsInt64() {
+			set[n.Int64()] = true
+		}
+	}
+	around := func(x *big.Int, d int64) {
+		for k := -d; k <= d; k++ {
+			addBig(new(big.Int).Add(x, big.NewInt(k)))
+		}
+	}
+	one := big.NewInt(1)
+	bm := big.NewInt(mult)
+	// small values, powers of two ±1 up to 2^63, d·10^e (d∈{1,2,3,5,9}, up to 19 digits) and 10^e±1
+	around(big.NewInt(0), 10)
+	for j := uint(1); j <= 63; j++ {
+		around(new(big.Int).Lsh(one, j), 1)
+	}
+	for e := int64(0); e <= 18; e++ {
+		p := new(big.Int).Exp(big.NewInt(10), big.NewInt(e), nil)
+		around(p, 1)
+		for _, d := range []int64{2, 3, 5, 9} {
+			addBig(new(big.Int).Mul(p, big.NewInt(d)))
+		}
+	}
+	// the int64 limits and the representable limits in units
+	around(big.NewInt(models.MaxNanoTime), 3)
+	around(big.NewInt(models.MinNanoTime), 3)
+	around(new(big.Int).Quo(big.NewInt(models.MaxNanoTime), bm), 2)
+	around(new(big.Int).Quo(big.NewInt(models.MinNanoTime), bm), 2)
+	// unit counts whose exact product sits at K·2^63 (where a wrapped 64-bit product changes sign / returns to zero):
+	// K = 1..24 and larger powers of two and ten; ±2 around floor(K·2^63/mult)
+	ks := []int64{}
+	for k := int64(1); k <= 24; k++ {
+		ks = append(ks, k)
+	}
+	ks = append(ks, 32, 50, 64, 100, 128, 256, 1000, 1024, 1<<16, 1e5, 1e6, 1<<20, 1<<24, 1e8, 1e9, 1<<30)
+	b63 := new(big.Int).Lsh(one, 63)
+	for _, k := range ks {
+		x := new(big.Int).Mul(b63, big.NewInt(k))
+		around(x.Quo(x, bm), 2)
+	}
+	out := make([]int64, 0, len(set))
+	for v := range set {
+		out = append(out, v)
+	}
+	mag := func(v int64) uint64 {
+		if v < 0 {
+			return uint64(-(v + 1)) + 1
+		}
+		return uint64(v)
+	}
+	sort.Slice(out, func(i, j int) bool {
+		if mi, mj := mag(out[i]), mag(out[j]); mi != mj {
+			return mi < mj
+		}
+		return out[i] < out[j]
+	})
+	return out
+}
+
+// tsExact returns units × multiplier of a timestamps-family case (units = last token of the input).
+func tsExact(cs Case) *big.Int {
+	f := strings.Fields(string(cs.In))
+	u, ok := new(big.Int).SetString(f[len(f)-1], 10)
+	if !ok {
+		return new(big.Int)
+	}
+	return u.Mul(u, big.NewInt(precMult(cs.Prec)))
+}
+
+// tsFeature: where the exact nanosecond value lies (how far a wrapped 64-bit product would be off) + precision.
+func tsFeature(cs Case) string {
+	x := tsExact(cs)
+	where := "in-range"
+	if x.Cmp(big.NewInt(models.MinNanoTime)) < 0 || x.Cmp(big.NewInt(models.MaxNanoTime)) > 0 {
+		a := new(big.Int).Abs(x)
+		switch {
+		case x.IsInt64():
+			where = "out-of-range-sentinel"
+		case a.Cmp(new(big.Int).Lsh(big.NewInt(1), 64)) < 0:
+			where = "out-of-range-below-2^64"
+		default:
+			where = "out-of-range-beyond-2^64"
+		}
+	}
+	return where + "/prec=" + cs.Prec
+}
+
+func timestampCases() []Case {
+	var out []Case
+	lo, hi := big.NewInt(models.MinNanoTime), big.NewInt(models.MaxNanoTime)
+	for _, prec := range []string{"ns", "us", "ms", "s"} {
+		for _, u := range tsCandidates(precMult(prec)) {
+			in := "ts v=2i " + strconv.FormatInt(u, 10)
+			exact := new(big.Int).Mul(big.NewInt(u), big.NewInt(precMult(prec)))
+			if exact.IsInt64() && exact.Int64() == defaultTime.UnixNano() {
+				continue // indistinguishable from "no timestamp" in viewText
+			}
+			ex := &Expect{}
+			if exact.Cmp(lo) >= 0 && exact.Cmp(hi) <= 0 {
+				ex.Points = []string{"ts||v=int64:2|" + exact.String()}
+			} else {
+				ex.Rejected = []string{in}
+			}
+			out = append(out, Case{Fam: "timestamps", In: []byte(in), Prec: prec, HTTP: true, Expect: ex})
+		}
+	}
+	return out
+}
+
 func explore(c *vlib.Ctx, w *watch) {
 	e := &explorer{c: c, outc: map[string]int64{}, w: w}
 	defer func() {
@@ -652,6 +795,11 @@ func explore(c *vlib.Ctx, w *watch) {
 
 	// family "limits"
 	for _, cs := range longKeyCases() {
+		e.visit(cs)
+	}
+
+	// family "timestamps"
+	for _, cs := range timestampCases() {
 		e.visit(cs)
 	}
 
@@ -771,9 +919,12 @@ func runWithWatchdog(c *vlib.Ctx) {
 		defer close(done)
 		explore(c, w)
 	}()
+	// The stall is measured in watchdog ticks that saw no progress, not in elapsed wall time: if the whole process is
+	// descheduled on a loaded machine the ticker is stalled too (missed ticks are dropped), so that is not a hang.
+	const period = 500 * time.Millisecond
 	last := int64(-1)
-	lastChange := time.Now()
-	tick := time.NewTicker(500 * time.Millisecond)
+	stalled := 0
+	tick := time.NewTicker(period)
 	defer tick.Stop()
 	for {
 		select {
@@ -784,10 +935,11 @@ func runWithWatchdog(c *vlib.Ctx) {
 			p, cs := w.progress, w.current
 			w.mu.Unlock()
 			if p != last {
-				last, lastChange = p, time.Now()
+				last, stalled = p, 0
 				continue
 			}
-			if p > 0 && time.Since(lastChange) > hangAfter {
+			stalled++
+			if p > 0 && time.Duration(stalled)*period > hangAfter {
 				cs.Text = q(cs.In)
 				c.Violation(vlib.JoinSig("hang", inputFeature(cs.In)), fmt.Sprintf("input %s: parser did not return within %v", cs.Text, hangAfter), cs)
 				c.Cap("worker stopped after a hang")
@@ -827,10 +979,10 @@ func replay(c *vlib.Ctx, raw json.RawMessage) (bool, string) {
 func TestCheck(t *testing.T) {
 	vlib.Main(t, &vlib.Check{
 		ID: "C12", Level: "exploration",
-		Rule: "family bytes: every byte string of length 0..6 (thorough 0..7) over {m , = space \" \\ 1 i \\n - t}; family mutants: 6 valid templates, every single deletion/duplication/substitution by each of the 11 alphabet bytes + {# tab NUL e . u CR T 0xff} at precisions ns and s (thorough: additionally every second mutation over the 11-byte alphabet); family lines: every sequence of 1..3 (thorough 4) of 12 lines of known well-formedness (4 valid incl. quoted newline and escapes, 5 malformed incl. duplicate tag and trailing backslash, blank, whitespace, comment) joined by \\n with/without final \\n, reference = concatenation of the known verdicts; family limits: composite key size MaxKeyLength−1/=/+1 (3 shapes) and timestamps at Min/Max±1 and int64 overflow × {ns,us,ms,s}. Per input: models.ParsePointsWithPrecision (and http/points.Parser for limits, mutants, lines≤2, bytes≤4/5) must return within 10 s without panic; every returned point: non-empty measurement, ≥1 field, no field with an empty key, readable fields, unique tag keys, key+4+field ≤ MaxKeyLength, time in [MinNanoTime,MaxNanoTime]; per-line exactness: result = concatenation of the results of the \\n-separated lines parsed alone and error = their errors joined (inputs with a '\"' may keep a newline inside a group that contains a quote). non-trivial = input returns ≥1 point, or contains a newline, or has a by-construction expectation (cases distinct by construction)",
+		Rule: "family bytes: every byte string of length 0..6 (thorough 0..7) over {m , = space \" \\ 1 i \\n - t}; family mutants: 6 valid templates, every single deletion/duplication/substitution by each of the 11 alphabet bytes + {# tab NUL e . u CR T 0xff} at precisions ns and s (thorough: additionally every second mutation over the 11-byte alphabet); family lines: every sequence of 1..3 (thorough 4) of 12 lines of known well-formedness (4 valid incl. quoted newline and escapes, 5 malformed incl. duplicate tag and trailing backslash, blank, whitespace, comment) joined by \\n with/without final \\n, reference = concatenation of the known verdicts; family limits: composite key size MaxKeyLength−1/=/+1 (3 shapes) and timestamps at Min/Max±1 and int64 overflow × {ns,us,ms,s}; family timestamps: for every precision {ns,us,ms,s} (multiplier 1/1e3/1e6/1e9) every int64 unit count u = ±x (≈3.5·10³ lines in total) with x ∈ {0..10, 2^j−1..2^j+1 (j≤63), 10^e−1..10^e+1 and d·10^e (d∈{2,3,5,9}, e≤18, i.e. up to 19 digits), MaxNanoTime−3..+3, Max/MinNanoTime÷mult −2..+2, ⌊K·2^63/mult⌋−2..+2 for K∈{1..24,32,50,64,100,128,256,1000,1024,2^16,10^5,10^6,2^20,2^24,10^8,10^9,2^30}} that fits int64; reference = exact product u·mult in math/big: the line must be rejected (and named by the error) iff the product is outside [MinNanoTime,MaxNanoTime], else the point's time must equal the product. Per input: models.ParsePointsWithPrecision (and http/points.Parser for limits, mutants, lines≤2, bytes≤4/5) must return within 10 s without panic; every returned point: non-empty measurement, ≥1 field, no field with an empty key, readable fields, unique tag keys, key+4+field ≤ MaxKeyLength, time in [MinNanoTime,MaxNanoTime]; per-line exactness: result = concatenation of the results of the \\n-separated lines parsed alone and error = their errors joined (inputs with a '\"' may keep a newline inside a group that contains a quote). non-trivial = input returns ≥1 point, or contains a newline, or has a by-construction expectation (cases distinct by construction)",
 		Assumptions: []string{
 			"arbitrary bytes beyond length 7 / outside the alphabet are not covered except through the template mutations",
-			"per-line exactness on the bytes/mutants families is metamorphic (single-line results come from the parser itself); the lines and limits families use verdicts known by construction",
+			"per-line exactness on the bytes/mutants families is metamorphic (single-line results come from the parser itself); the lines, limits and timestamps families use verdicts known by construction",
 			"hang detection uses a 10 s wall-clock watchdog per input (normal cost ≈ 1 µs)",
 		},
 		QuickBudgetS: 45, ThoroughBudgetS: 800,
